@@ -1,0 +1,56 @@
+//go:build verif
+
+package cisco
+
+// Exports for the verification harness of the ASA VPN fragment (properties
+// C01, C07, C08, C10). Added file only; not part of the normal build.
+
+import (
+	"github.com/hknutzen/Netspoc-Approve/go/pkg/errlog"
+)
+
+type VerifVpnCmd struct {
+	ID     int
+	Name   string
+	Seq    int
+	Parsed string
+	Ref    []string
+}
+
+type VerifVpnCall struct {
+	A, B []VerifVpnCmd
+}
+
+// VerifMatchCryptoMap calls matchCryptoMap with commands built from the
+// given values and returns the calls of the callback in order. The commands
+// are shown as they are at the time of the call (name and sequence number
+// of commands from Netspoc may have been changed).
+// aborted: errlog.Abort has been called.
+func VerifMatchCryptoMap(a, b []VerifVpnCmd) (calls []VerifVpnCall, aborted bool) {
+	id := make(map[*cmd]int)
+	conv := func(l []VerifVpnCmd) []*cmd {
+		var result []*cmd
+		for _, v := range l {
+			c := &cmd{name: v.Name, seq: v.Seq, parsed: v.Parsed, ref: v.Ref}
+			id[c] = v.ID
+			result = append(result, c)
+		}
+		return result
+	}
+	back := func(l []*cmd) []VerifVpnCmd {
+		var result []VerifVpnCmd
+		for _, c := range l {
+			result = append(result, VerifVpnCmd{
+				ID: id[c], Name: c.name, Seq: c.seq, Parsed: c.parsed, Ref: c.ref})
+		}
+		return result
+	}
+	al, bl := conv(a), conv(b)
+	status := errlog.HandleAbort(func() int {
+		matchCryptoMap(al, bl, func(aSeqL, bSeqL []*cmd) {
+			calls = append(calls, VerifVpnCall{A: back(aSeqL), B: back(bSeqL)})
+		})
+		return 0
+	})
+	return calls, status != 0
+}
